@@ -233,6 +233,29 @@ def check_design_space_tables(ctx: Ctx) -> None:
     want = {"SIZE_GROUP": "variable.size", "LB_GROUP": "variable.lower_bound", "UB_GROUP": "variable.upper_bound"}
     for k, v in want.items():
         ctx.ob("11.1-ds-fields", cname(DS, "DesignSpace", "to_hdf"), wr.get(k) == v, f"{k} must hold {v}, found {wr.get(k)}", node=w, stmt=f"{k} <- {v}")
+    # the current value is written variable by variable: the test that guards it is about THIS variable
+    vcalls = [c for c in walk_body(w) if isinstance(c, ast.Call) and last_attr(c) == "create_dataset" and c.args and norm_stmt(c.args[0]).endswith("VALUE_GROUP")]
+    okv = len(vcalls) == 1
+    if okv:
+        from gv.cfg import cfg_of as _cfg_of
+
+        cg = _cfg_of(w)
+        lp = next((s_ for s_ in stmts_of(w) if isinstance(s_, ast.For) and vcalls[0] in list(ast.walk(s_))), None)
+        okv = lp is not None
+        if okv:
+            lvars = {n_.id for n_ in ast.walk(lp.target) if isinstance(n_, ast.Name)}
+            ldefs = {s_.targets[0].id: s_.value for s_ in ast.walk(lp) if isinstance(s_, ast.Assign) and isinstance(s_.targets[0], ast.Name)}
+            tests = [cg.ast[t].test for (t, v), b in cg.branch.items() if cg.kind[t] == "test" and cg.dominates(b, cg.node_of(rules.enclosing_stmt(w, vcalls[0]))) and any(sub is cg.ast[t] for sub in ast.walk(lp))]
+            def names(e, depth=0):
+                out = set()
+                for n_ in ast.walk(e):
+                    if isinstance(n_, ast.Name):
+                        out.add(n_.id)
+                        if n_.id in ldefs and depth < 3:
+                            out |= names(ldefs[n_.id], depth + 1)
+                return out
+            okv = bool(tests) and all(names(t) & lvars for t in tests)
+    ctx.ob("11.1-ds-fields", cname(DS, "DesignSpace", "to_hdf"), bool(okv), "the current value of a variable is written iff THAT variable has one: a test that does not depend on the variable of the loop (e.g. 'every variable has a value') drops the values of all the variables as soon as one has none", node=(vcalls or [w])[0], stmt="current value written per variable")
     ctx.ob("11.1-ds-fields", cname(DS, "DesignSpace", "to_hdf"), "variable.type" in wr.get("VAR_TYPE_GROUP", "") and "variable_names" in wr.get("NAMES_GROUP", "") and "value" in wr.get("VALUE_GROUP", ""), "type, names and current value must be written under their own dataset names", node=w, stmt="type/names/value datasets")
     # reader feeds add_variable(name, size, type, lb, ub, value) from the matching datasets
     add = [c for c in walk_body(r) if isinstance(c, ast.Call) and last_attr(c) == "add_variable"]
@@ -351,6 +374,7 @@ def run(ctx: Ctx) -> None:
 # ---------------------------------------------------------------------------
 _DBF = "algos/database.py"
 WITNESSES = [
+    {"name": "design-space-values-all-or-nothing", "file": DS, "old": "                value = self.__current_value.get(name)\n                if value is not None:\n                    var_grp.create_dataset(self.VALUE_GROUP, data=self.__to_real(value))", "new": "                if self.__has_current_value:\n                    value = self.__current_value[name]\n                    var_grp.create_dataset(self.VALUE_GROUP, data=self.__to_real(value))", "expect": "11.1"},
     {"name": "reader-other-group", "file": HD, "old": "            keys_group = h5file[\"k\"]", "new": "            keys_group = h5file[\"keys\"]", "expect": "11.1"},
     {"name": "writer-subgroup-renamed", "file": HD, "old": "        sub_group_name = f\"arr_{index_dataset}\"", "new": "        sub_group_name = f\"vec_{index_dataset}\"", "expect": "11.1"},
     {"name": "scalars-zipped-with-all-keys", "file": HD, "old": "                            (k for k in keys if k not in names_to_arrays),", "new": "                            (k for k in keys),", "expect": "11.1"},
